@@ -134,7 +134,10 @@ class Sched:
             self.fail(Deadlock(f"no enabled thread at '{label}' (main waits for {self.main_wait})"))
             raise Aborted()
         try:
-            i = self.ch.choose(len(en), label)
+            if hasattr(self.ch, "pick"):
+                i = self.ch.pick(list(en), label)   # model-driven replay (mc/tlc.py): choose by thread name
+            else:
+                i = self.ch.choose(len(en), label)
         except BaseException as e:  # Horizon / Diverged from the explorer
             self.fail(e)
             raise Aborted()
